@@ -18,6 +18,7 @@ type RetryTransaction struct {
 	retryCount    uint
 	retryNumMutex sync.Mutex
 	retryNum      uint
+	timerMutex    sync.Mutex // guards timer
 	timer         *time.Timer
 	retryCallback RTRetryCallback
 	State         interface{}
@@ -58,14 +59,17 @@ func NewRetryTransaction(ctx context.Context, retryDelay time.Duration, retryCou
 
 // Transaction.Success() implementation.
 func (t *RetryTransaction) Success() {
-	t.stopTimer()
+	// Finish first, stop the timer afterwards: restartTimer does not start
+	// a timer for a finished transaction and a timer started just before
+	// is stopped here.
 	t.TransactionBase.Success()
+	t.stopTimer()
 }
 
 // Transaction.Fail() implementation.
 func (t *RetryTransaction) Fail(e error) {
-	t.stopTimer()
 	t.TransactionBase.Fail(e)
+	t.stopTimer()
 }
 
 // StatefulTransaction.Proceed() implementation.
@@ -79,14 +83,35 @@ func (t *RetryTransaction) Proceed(state interface{}, data interface{}) {
 	t.restartTimer()
 }
 
+func (t *RetryTransaction) isDone() bool {
+	select {
+	case <-t.Done():
+		return true
+	default:
+		return false
+	}
+}
+
 func (t *RetryTransaction) stopTimer() {
+	t.timerMutex.Lock()
+	defer t.timerMutex.Unlock()
+
 	if t.timer != nil {
 		t.timer.Stop()
 	}
 }
 
+// restartTimer restarts the retry timer unless the transaction is done.
 func (t *RetryTransaction) restartTimer() {
-	t.stopTimer()
+	t.timerMutex.Lock()
+	defer t.timerMutex.Unlock()
+
+	if t.timer != nil {
+		t.timer.Stop()
+	}
+	if t.isDone() {
+		return
+	}
 	t.timer = time.AfterFunc(t.retryDelay, t.timeout)
 }
 
@@ -94,6 +119,10 @@ func (t *RetryTransaction) timeout() {
 	t.retryNumMutex.Lock()
 	defer t.retryNumMutex.Unlock()
 
+	// Success or Fail may have been called after the timer fired.
+	if t.isDone() {
+		return
+	}
 	t.retryNum++
 	if t.retryNum > t.retryCount {
 		t.Fail(ErrNoMoreRetries)
@@ -101,6 +130,7 @@ func (t *RetryTransaction) timeout() {
 	}
 	if err := t.retryCallback(t.Data); err != nil {
 		t.Fail(err)
+		return
 	}
 	t.restartTimer()
 }
